@@ -15,6 +15,7 @@ import (
 //   rt  <T> <V>                  Encode, Decode into zero    -> ok <V'> | err <V'> | encerr
 //   dec <T> <V> <pts> <epts>     Decode into V               -> ok <V'> | err <V'>
 //   mrg <T> <V> <pts>            MergePoints(V.id, pts, &V)  -> ok <V'> | err <V'> | nomatch
+//   mre <T> <V> <m|i|p|n|e> <pts>  MergeEdgePoints(id, parent, pts, &V) with matching / foreign / empty id and parent -> as mrg
 //   dm  <T> <A> <B>              DiffPoints(A,B), MergePoints onto a copy of A -> <diff sorted> | ok <A'>  (or differr)
 //   rtc <T> <V> <kids> <children> Encode V and every child, Decode node + children into zero -> ok <V'> # <ctype>=[<child values>] ...
 
@@ -108,6 +109,30 @@ func cfgRun(c string) string {
 		v := buildCfgValue(t, fields, f[2])
 		id := v.Elem().Field(0).String()
 		err := data.MergePoints(id, parseCps(f[3]), v.Interface())
+		if err != nil && strings.Contains(err.Error(), "no matching struct") {
+			return "nomatch"
+		}
+		st := "ok "
+		if err != nil {
+			st = "err "
+		}
+		return st + cfgValueText(v, fields)
+	case "mre":
+		// MergeEdgePoints(id, parent, pts, &V) with the id / parent of V ("m"), a foreign id ("i"), a foreign parent ("p"),
+		// no parent ("n") or an empty id ("e")
+		v := buildCfgValue(t, fields, f[2])
+		id, parent := v.Elem().Field(0).String(), v.Elem().Field(1).String()
+		switch f[3] {
+		case "i":
+			id += "-other"
+		case "p":
+			parent += "-other"
+		case "n":
+			parent = ""
+		case "e":
+			id = ""
+		}
+		err := data.MergeEdgePoints(id, parent, parseCps(f[4]), v.Interface())
 		if err != nil && strings.Contains(err.Error(), "no matching struct") {
 			return "nomatch"
 		}
@@ -435,8 +460,10 @@ func c11Gen(r *rand.Rand, n int, tier string) []string {
 		T := genCfgType(r)
 		fields := parseCfgType(T)
 		v := genCfgValue(r, fields, false)
-		if r.Intn(4) == 0 {
+		if k := r.Intn(8); k < 2 {
 			out = append(out, fmt.Sprintf("mrg %s %s %s", T, v, genHostilePoints(r, fields, false)))
+		} else if k == 2 {
+			out = append(out, fmt.Sprintf("mre %s %s %s %s", T, v, pick(r, []string{"m", "m", "i", "p", "n", "e"}), genHostilePoints(r, fields, true)))
 		} else {
 			out = append(out, fmt.Sprintf("dec %s %s %s %s", T, v, genHostilePoints(r, fields, false), genHostilePoints(r, fields, true)))
 		}
